@@ -38,7 +38,7 @@ def is_sym(v):
 
 def deep_sym(v, _depth=0):
     """True if v contains a symbolic value (shallow containers only)."""
-    if isinstance(v, (Sym, SArr, SMasked)):
+    if isinstance(v, (Sym, SArr, SMasked)) or getattr(v, "__pyvc_symbolic__", False):
         return True
     if _depth < 3 and isinstance(v, (tuple, list)):
         return any(deep_sym(x, _depth + 1) for x in v)
@@ -467,10 +467,10 @@ class SArr:
 
     @property
     def size(self):
-        s = 1
+        s = None
         for d in self.shape:
-            s = s * d
-        return s
+            s = d if s is None else s * d
+        return 1 if s is None else s
 
     def __len__(self):
         n = self.shape[0]
@@ -671,7 +671,7 @@ def shape_of(v):
 def same_dim(a, b):
     """are two dimension values (int|Sym) known equal syntactically"""
     if isinstance(a, Sym) and isinstance(b, Sym):
-        return a.e.eq(b.e)
+        return a.e.eq(b.e) or z3.simplify(a.e - b.e).eq(z3.IntVal(0))
     if isinstance(a, Sym) or isinstance(b, Sym):
         return False
     return a == b
